@@ -21,12 +21,12 @@ OT = "math::math_enums::OptimizationType"
 INF = float("inf")
 
 
-def dv(t):
-    return Var("parser::model_transformer::transformer_context::DomainVariable", fields={"as_type": t, "span": roundtrip.SPAN, "usage_count": 1})
+def dv(t, usage=1):
+    return Var("parser::model_transformer::transformer_context::DomainVariable", fields={"as_type": t, "span": roundtrip.SPAN, "usage_count": usage})
 
 
-def make_model(names, domains, opt, objective, offset, rows):
-    dom = ListV([(n, dv(Var(VT + "::" + d[0], list(d[1:])))) for n, d in zip(names, domains)])
+def make_model(names, domains, opt, objective, offset, rows, usage=1):
+    dom = ListV([(n, dv(Var(VT + "::" + d[0], list(d[1:])), usage)) for n, d in zip(names, domains)])
     cons = ListV([Var("transformers::linear_model::LinearConstraint", fields={"name": nm, "coefficients": ListV(list(co)), "rhs": rhs, "constraint_type": Var(CMP + "::" + cmp)}) for nm, co, cmp, rhs in rows])
     return Var("transformers::linear_model::LinearModel", fields={"variables": ListV(list(names)), "domain": dom, "objective_offset": offset, "optimization_type": Var(OT + "::" + opt), "objective": ListV(list(objective)), "constraints": cons})
 
@@ -244,6 +244,12 @@ def family(tier):
     dom = [("Boolean",)] * 3 + [("Real", -INF, INF)] * 2 + [("IntegerRange", 0, 10)] * 2
     rows = [("", [1.0] * n, "LessOrEqual", 1.0)]
     models.append(("domains:grouped", make_model(NAMES, dom, "Min", [1.0] * n, 0.0, rows), (NAMES, dom, "Min", [1.0] * n, 0.0, rows)))
+    # a model assembled through the public API (LinearModel::add_variable, DomainVariable::new): the usage marks the
+    # compile pipeline keeps are all zero, the model is the same model
+    for k in range(len(DOMAINS)):
+        dom = [DOMAINS[(i + k) % len(DOMAINS)] for i in range(n)]
+        rows = [("r", [1.0, -2.0] + [1.0] * (n - 2), "GreaterOrEqual", -1.0)]
+        models.append(("api-built:rot%d" % k, make_model(NAMES, dom, "Max", [1.0, 0.5] + [0.0] * (n - 2), 1.5, rows, usage=0), (NAMES, dom, "Max", [1.0, 0.5] + [0.0] * (n - 2), 1.5, rows)))
     return models
 
 
